@@ -73,7 +73,7 @@ CLAIMS = {
    note='Conditional on absence of 64-bit hash collisions (false in general by counting; a hypothesis on the positions reachable from the root).'),
  'C14': dict(cat='proof', tech='Lean 4 refinement of the bucket table to the log of saves + correspondence on colliding histories',
    text="PROVED (Props/C14): every non-empty entry is exactly one logged save (stored_from_log); a usable score comes from a save of that hash with at least the requested depth and respects its bound (get_sound); "
-        "the suggested move was stored with that hash; a never-stored hash yields nothing; a save is found afterwards. Tie: colliding histories compared result by result; soundness decided against the log on the Go side.", ref='5/C14, 10.4'),
+        "the suggested move was stored with that hash; a never-stored hash yields nothing; a save is found afterwards. Tie: colliding histories compared result by result; soundness decided against the log on the Go side. On the text regenerated from ttentry.go (Props/C14s, decided completely: tie_tac or kernel evaluation of all 2^16 byte pairs): the bound kind survives the write of every age byte, age and kind are read back as written, the payload fields are untouched.", ref='5/C14, 10.4, 10.10'),
  'C15': dict(cat='proof', tech='Lean 4 theorems eval_bounded / eval_no_overflow / eval_mirror + tables dumped from the running code + correspondence of exact scores',
    text="PROVED (Props/C15, C15b): for legal material the score is strictly outside the mate range (|v| <= evalBound, a bound computed from the tuning constants and tables regenerated from the running code; evalBound < INF - maxPlies is decided on every run, currently 14881 < 32667), no int16 intermediate overflows, the evaluation never panics; evaluation of the mirror position equals the "
         "evaluation of the position for every position with one king per side (eval_mirror, using slider exactness C12b). Tie: exact raw score compared on generated positions incl. maximal material; mirror and bound asserted "
